@@ -939,3 +939,8 @@ M('I-checksum-cursor-zero', 'C09', 'C09.I', P2P, "last_sent_checksum_frame: NULL
 M('I-last-requested-zero', 'C01', 'C01.I', IQ, "last_requested_frame: NULL_FRAME,", "last_requested_frame: 0,", 'discard bound starts at 0 instead of none')
 M('I-spectator-starts-at-zero', 'C06', 'C06.I', SPEC, "current_frame: NULL_FRAME,", "current_frame: 0,", 'the spectator skips frame 0')
 M('I-event-latch-set', 'C07', 'C07.I', PROTO, "disconnect_event_sent: false,", "disconnect_event_sent: true,", 'Disconnected can never be emitted')
+
+M('W-getter-crossed', 'C02', 'C02.W', SL,
+  """    pub(crate) fn last_saved_frame(&self) -> Frame {
+        self.last_saved_frame""", """    pub(crate) fn last_saved_frame(&self) -> Frame {
+        self.last_confirmed_frame""", 'getter returns the neighbouring field')
